@@ -89,6 +89,12 @@ def run_case(rec, case):
         # repeat one and the same JSON message
         hcfg = dict(hcfg, mutate_payloads=True)
         rec.count('mutating_handlers')
+    # synchronous handlers that take a while: on a WebSocket the frames pile
+    # up in front of them, and the client closes right after its last frame
+    case['_slow'] = (not asyncm) and path in ('ws', 'ws-upgraded') and \
+        rng.random() < 0.3
+    if case['_slow']:
+        hcfg = dict(hcfg, suspend={'message': 0.05})
     sim = scen.make_sim(srv, server_kwargs={'async_handlers': asyncm},
                         handler_cfg=hcfg,
                         policy='random', seed=rng.randrange(1 << 30),
@@ -159,6 +165,12 @@ def _run(rec, rng, sim, R, srv, asyncm, path, V, case):
         ws.send('2probe')
         sim.quiesce()
     items = gen_items(rng, 'ws' if path.startswith('ws') else 'post')
+    if case.get('_slow') and path.startswith('ws'):
+        # (the client will be gone by the time its frames are worked off: a
+        # packet the server ANSWERS - UPGRADE -> NOOP - makes it write to a
+        # closed connection, which legitimately ends the session before the
+        # rest is read; such packets are left out of these bursts)
+        items = [i for i in items if i[0] != 'u'] or [('m', 'text')]
     pieces, expect, expect_all = [], [], []
     fate = 'alive'          # alive | closed | failed
     whole_reject = False
@@ -215,7 +227,18 @@ def _run(rec, rng, sim, R, srv, asyncm, path, V, case):
     other_n = len([e for e in sim.events if e['sid'] == other.sid])
     d0 = len(R.delivered_other)
     tk = None
-    if on_ws:
+    close_after = on_ws and case.get('_slow')
+    if close_after:
+        # every frame that was sent before the connection ended is still
+        # acted on, exactly once and in order, however long the handlers take
+        rec.count('frames_then_close')
+        for p in pieces:
+            s.ws.send(p)
+        s.ws.close()
+        sim.quiesce()
+        sim.advance(0.05 * len(pieces) + 1)
+        sim.quiesce()
+    elif on_ws:
         for p in pieces:
             s.ws.send(p)
             if rng.random() < 0.5:
@@ -279,6 +302,11 @@ def _run(rec, rng, sim, R, srv, asyncm, path, V, case):
               [repr(g[1])[:40] for g in gm], [repr(e[1])[:40]
                                                for e in expect]))
     dis = [e for e in got if e['ev'] == 'disconnect']
+    if close_after and fate != 'closed':
+        if len(dis) != 1 and fate == 'alive':
+            V('frames-then-close-disconnects', 'frames, then the connection '
+              'closed: disconnect events %r' % ([d['reason'] for d in dis],))
+        return
     if fate == 'closed':
         rec.count('close_packet')
         if len(dis) != 1 or dis[0]['reason'] != 'client disconnect':
